@@ -184,7 +184,7 @@ def h_contain(site, pre):
         events += legit_events(peer, 4) + [{'kind': 'control'}, {'kind': 'tick'}]
     events += [{'kind': 'tick'}] * 2
     try:
-        lp, bad = run(n, events, f'exception in {site}')
+        lp, bad = run(n, events, f'exception in {site}', send_fault=send_fault)
     finally:
         for r in restore:
             r()
